@@ -6,6 +6,8 @@
    off-axis".  The SymPy backend itself is tied to eval_sym by correspondence (evidence). *)
 From Coq Require Import Reals.
 From VP Require Import Lib RLib ELib Spec Compute Tables C08_sym.
+From Coq Require Import List Bool Arith.
+From VP Require ObjModel ObjNames NbModel SpApi NpChecks SpChecks.
 Open Scope R_scope.
 
 (* for EVERY expression tree: on its regular domain the symbolic reading equals the numeric one (induction on the tree) *)
@@ -37,3 +39,13 @@ Example C08_irregular_point_differs :
 Proof.
   cbn [eval_sym evalR is_literal bin_sem]. split; [reflexivity|]. unfold Rdiv. rewrite Rmult_0_l. apply Rmax_right. Lra.lra.
 Qed.
+
+(* the SymPy backend's glue is the object backend's: with the same (recording) lib every getter, conversion (every keyword choice),
+   unary and binary method of the SymPy vector classes returns the object backend's outcome — class (VectorSympyND ~ VectorObjectND,
+   flavor), coordinate systems and field expressions over the generated compute definitions — for all 20 systems x 2 flavors;
+   so a SymPy result IS the generated compute definition instantiated with SympyLib, which the theorem above relates to the numeric
+   backends on the regular domain.  Exception listed in model/SpChecks.v: v ** 2. *)
+Theorem C08_sympy_glue_is_the_object_backend :
+  forallb VP.SpChecks.sp_agree VP.SpApi.sp_tab = true /\
+  Nat.ltb 10000 (VP.NbModel.count VP.SpChecks.sp_count_returning VP.SpApi.sp_tab) = true.
+Proof. vm_cast_no_check (conj (eq_refl true) (eq_refl true)). Qed.
